@@ -32,10 +32,10 @@ Definition upd_qty (p : Z) (o : sell_order) (uq : bytes) (s : state) : lres (sta
       match cmp nq cq with
       | Gt => d <- lift (sub nq cq) ;;
               s <- escrow_credits (so_seller o) (so_batch_key o) d s ;;
-              LOk (s, uq)
+              LOk (s, to_string nq)
       | Lt => d <- lift (sub cq nq) ;;
               s <- unescrow_credits (so_seller o) (so_batch_key o) (to_string d) s ;;
-              LOk (s, uq)
+              LOk (s, to_string nq)
       | Eq => LOk (s, so_quantity o)
       end
   end.
@@ -74,43 +74,53 @@ Proof. intros H Hfg a k. rewrite (H a k), Hfg. reflexivity. Qed.
 
 Lemma upd_qty_spec o uq s s2 quantity cq :
   Inv_sk s -> Inv_cons s -> Inv_escrow s ->
-  parse (so_quantity o) = Ok cq -> in_ok cq -> 0 < U cq -> U cq < BOUND ->
+  parse (so_quantity o) = Ok cq -> in_ok cq -> 0 < U cq ->
+  U cq <= U (bl_escrowed (get_balance s (so_seller o) (so_batch_key o))) ->
+  U (bl_tradable (get_balance s (so_seller o) (so_batch_key o))) +
+    U (bl_escrowed (get_balance s (so_seller o) (so_batch_key o))) < BOUND ->
   upd_qty P o uq s = LOk (s2, quantity) ->
-  exists nq, parse quantity = Ok nq /\ in_ok nq /\ 0 < U nq /\
+  exists nq, parse quantity = Ok nq /\ in_ok nq /\ 0 < U nq /\ (dexp cq <= 0 -> dexp nq <= 0) /\
     Inv_sk s2 /\ Inv_cons s2 /\
     esc_off s2 (bump2 (so_seller o) (so_batch_key o) (U nq - U cq) (fun _ _ => 0)) /\
     mframe s s2 /\ bal_only s s2.
 Proof.
-  intros Hsk Hcons Hesc Hp Hcq Hcqpos Hcqb H.
+  intros Hsk Hcons Hesc Hp Hcq Hcqpos HcqE Hte H.
   assert (Hsame : esc_off s (bump2 (so_seller o) (so_batch_key o) (U cq - U cq) (fun _ _ => 0))).
   { eapply esc_off_same; [apply esc_off_intro; exact Hesc|]. intros a k. unfold bump2. destruct (decide _); lia. }
   pose proof Hsk as (_ & Hscale & _).
+  pose proof (get_balance_ok s (so_seller o) (so_batch_key o) Hscale) as (Hgt & _ & Hge).
+  pose proof (in_ok_U_nonneg _ (stored_in_ok _ Hgt)) as HT0. pose proof (in_ok_U_nonneg _ (stored_in_ok _ Hge)) as HE0.
   unfold upd_qty in H. destruct uq as [|c0 uq0] eqn:Euq.
-  { inversion H; subst. exists cq. repeat (split; [eassumption|]). split; [apply mframe_refl | apply bal_only_refl]. }
+  { inversion H; subst. exists cq. repeat (split; [eassumption || tauto|]). split; [apply mframe_refl | apply bal_only_refl]. }
   rewrite <- Euq in H. clear Euq. remember uq as uqs eqn:Euqs. clear Euqs.
   lstep H as nq Hnq. rewrite Hp in H. cbn [lift lbind] in H.
   apply posfixed_spec in Hnq. destruct Hnq as (Hnp & Hnok & Hnpos).
   rewrite (cmp_U nq cq Hnok Hcq) in H.
-  destruct (Z.compare_spec (U nq) (U cq)) as [Heq|Hlt|Hgt].
+  destruct (Z.compare_spec (U nq) (U cq)) as [Heq|Hlt|Hgt'].
   - (* same amount: the stored string is kept *)
-    inversion H; subst. exists cq. rewrite Heq in *. repeat (split; [eassumption|]).
+    inversion H; subst. exists cq. rewrite Heq in *. repeat (split; [eassumption || tauto|]).
     split; [apply mframe_refl | apply bal_only_refl].
   - (* decrease *)
     lstep H as d Hd. lstep H as s1 Hs1. inversion H; subst s2 quantity; clear H.
     destruct (sub_units cq nq d Hcq Hnok Hd) as (_ & _ & HUd & Hdok). specialize (Hdok ltac:(lia)).
-    destruct (reparse_units d Hdok ltac:(lia)) as (d' & Hdp & Hd'ok & HUd').
+    destruct (reparse_units d Hdok ltac:(lia)) as (d' & Hdp & Hd'ok & HUd' & _).
+    destruct (reparse_units nq Hnok ltac:(lia)) as (nq' & Hnq'p & Hnq'ok & HUnq' & Hnq'e).
     destruct (unescrow_spec _ _ _ _ _ _ Hscale Hdp Hd'ok Hs1) as (b & b' & Hb & Hw & Hok & Ht & He & Hr).
     destruct (move_row _ _ _ _ (U d') _ _ Hsk Hcons Hesc Hb Hw Hok Ht He Hr) as (Hsk1 & Hcons1 & Hesc1 & Hmf1).
-    exists nq. split; [exact Hnp|]. split; [exact Hnok|]. split; [exact Hnpos|].
+    exists nq'. split; [exact Hnq'p|]. split; [exact Hnq'ok|]. split; [lia|]. split; [intros _; exact Hnq'e|].
     split; [exact Hsk1|]. split; [exact Hcons1|]. split; [|split; [exact Hmf1 | eapply bal_only_wr_bal; exact Hw]].
     eapply esc_off_same; [exact Hesc1|]. intros a k. unfold bump2. destruct (decide _); lia.
   - (* increase *)
     lstep H as d Hd. lstep H as s1 Hs1. inversion H; subst s2 quantity; clear H.
     destruct (sub_units nq cq d Hnok Hcq Hd) as (_ & _ & HUd & Hdok). specialize (Hdok ltac:(lia)).
     destruct (escrow_spec _ _ _ _ _ Hscale Hdok Hs1) as (b & b' & Hb & Hw & Hok & Ht & He & Hr).
+    assert (Hnb : U nq < BOUND).
+    { rewrite (get_balance_Some _ _ _ _ Hb) in *. destruct Hok as (Hok1 & _ & _).
+      pose proof (in_ok_U_nonneg _ (stored_in_ok _ Hok1)). lia. }
+    destruct (reparse_units nq Hnok Hnb) as (nq' & Hnq'p & Hnq'ok & HUnq' & Hnq'e).
     destruct (move_row _ _ _ _ (- U d) _ _ Hsk Hcons Hesc Hb Hw Hok ltac:(lia) ltac:(lia) Hr)
       as (Hsk1 & Hcons1 & Hesc1 & Hmf1).
-    exists nq. split; [exact Hnp|]. split; [exact Hnok|]. split; [exact Hnpos|].
+    exists nq'. split; [exact Hnq'p|]. split; [exact Hnq'ok|]. split; [lia|]. split; [intros _; exact Hnq'e|].
     split; [exact Hsk1|]. split; [exact Hcons1|]. split; [|split; [exact Hmf1 | eapply bal_only_wr_bal; exact Hw]].
     eapply esc_off_same; [exact Hesc1|]. intros a k. unfold bump2. destruct (decide _); lia.
 Qed.
@@ -150,12 +160,14 @@ Proof.
   destruct (upd_ask_spec _ _ _ _ _ _ _ Htr) as (Hs1 & Hask).
   pose proof (markets_change_fields _ _ Hs1) as (F1 & F2 & F3 & F4 & F5 & F6 & F7 & F8 & F9).
   pose proof (Inv_core_core_eq _ _ (markets_change_core_eq _ _ Hs1) Hcore) as Hcore1.
-  pose proof (order_units_bound s _ _ Hcore Hbound Ho) as Hub.
+  pose proof (te_bound s1 (so_seller o) (so_batch_key o) Hcore1
+                (Inv_bound_core_eq _ _ (markets_change_core_eq _ _ Hs1) Hbound)) as Hte.
   apply Inv_core_split in Hcore1. destruct Hcore1 as (Hsk1 & Hcons1 & Hesc1).
   destruct Hscale as (_ & _ & _ & Hs4). destruct (Hs4 _ _ Ho) as (cq & Hcp & Hcq & Hcqpos).
-  rewrite (order_units_parse _ _ Hcp) in Hub.
-  destruct (upd_qty_spec _ _ _ _ _ _ Hsk1 Hcons1 Hesc1 Hcp Hcq Hcqpos Hub Hqr)
-    as (nq & Hnp & Hnok & Hnpos & Hsk2 & Hcons2 & Hesc2 & Hmf2 & Hbo2).
+  assert (HcqE : U cq <= U (bl_escrowed (get_balance s1 (so_seller o) (so_batch_key o)))).
+  { rewrite (Hesc1 _ _), F4. rewrite <- (order_units_parse _ _ Hcp). eapply order_le_order_sum; [exact Hs4 | exact Ho]. }
+  destruct (upd_qty_spec _ _ _ _ _ _ Hsk1 Hcons1 Hesc1 Hcp Hcq Hcqpos HcqE Hte Hqr)
+    as (nq & Hnp & Hnok & Hnpos & Hnexp & Hsk2 & Hcons2 & Hesc2 & Hmf2 & Hbo2).
   assert (Hso2 : sell_orders s2 = sell_orders s) by (rewrite Hbo2; cbn; exact F4).
   assert (Hbt2 : batches s2 = batches s) by (rewrite Hbo2; cbn; exact F5).
   set (o' := {| so_seller := so_seller o; so_batch_key := so_batch_key o; so_quantity := quantity;
@@ -165,7 +177,7 @@ Proof.
   assert (Hw3 : wr_ord (up_id u) o' s2 s3) by reflexivity.
   assert (Hoo : order_ok o') by (exists nq; cbn [so_quantity o']; tauto).
   assert (Hou : order_units o' = U nq) by (apply order_units_parse; exact Hnp).
-  split; [apply Inv_core_split; split; [|split]|split].
+  split; [apply Inv_core_split; split; [|split]|split; [|split]].
   - eapply (sk_wr_ord _ _ _ _ Hw3); [exact Hoo | | | exact Hsk2].
     + cbn [so_batch_key o']. rewrite Hbt2, Hba. eauto.
     + destruct Hsk2 as (_ & _ & (_ & _ & _ & _ & _ & _ & Hk7 & _)). apply Hk7. exact Hsome.
@@ -194,6 +206,12 @@ Proof.
         split; [exact Hmk|]. split; [exact Hba|].
         rewrite (ct_abbrev_of_denom_ext s s3 _ Hc3 Ht3). exact Hp.
       * right. exists id0, o0. rewrite Hso2 in H0. split; [exact H0 | unfold order_sim; tauto].
+  - intros Hqty. apply (Inv_qty_transfer s s3); [|exact Hqty].
+    intros id0 o0 H0. unfold s3 in H0. cbn in H0. apply lookup_insert_Some in H0.
+    destruct H0 as [[_ <-]|[_ H0]].
+    + left. exists nq. cbn [so_quantity o']. split; [exact Hnp|]. apply Hnexp.
+      destruct (Hqty _ _ Ho) as (d2 & Hp2 & He2). rewrite Hcp in Hp2. inversion Hp2; subst. exact He2.
+    + right. exists id0, o0. rewrite Hso2 in H0. tauto.
 Qed.
 
 Lemma h_update_step e s seller updates s' r evs :
